@@ -8,7 +8,23 @@
     which drains the result channel with a blocking [recv] and re-sequences the results
     with a [VecDeque<Option<R>>].  Both channels have capacity [2 * o_tasks].  The caller
     never executes pool tasks while it drains: if it is itself a worker of the global pool
-    it is simply lost to the pool. *)
+    it is simply lost to the pool.
+
+    Before any of that the code (since the repair of defect 7b) tests
+    [rayon::current_thread_index().is_some() && rayon::current_num_threads() == 1]: a
+    caller that is a worker of a pool -- the global one or a custom one -- whose size is 1
+    folds the items sequentially on its own stack, without feeder thread, channels or
+    tasks ([o_takes_seq], [oseq_step]).  [current_num_threads()] is the size of the pool
+    the CALLER runs in: the custom pool inside [install]/a task of a custom pool, the
+    global pool for a task of the global pool and for a thread outside any pool (for which
+    [current_thread_index()] is [None], so the branch is not taken whatever the size).
+
+    The configuration carries the flag [o_fixed]: [true] is the code as it is now,
+    [false] the rule the code had before the repair (no sequential branch), kept so that
+    the refutation theorems about the old rule remain ([pmf_ord_run_prefix]).
+
+    The machine has ONE caller: every worker of the global pool other than the caller is
+    available to the consumers. *)
 From WG Require Import Base.Prelude PMF.Sched.
 
 Module PmfOrdM.
@@ -54,10 +70,45 @@ Inductive ocstate :=
 | OHolding (w : nat) (i : N)      (* running, has mapped item i, about to send it *)
 | ODone.
 
+(** what the calling thread is *)
+Inductive ocaller :=
+| OExternal                  (* not a pool thread: [current_thread_index()] is [None] *)
+| OGlobalWorker              (* worker 0 of the global pool (a task of the global pool) *)
+| OCustomWorker (n : nat).   (* a worker of another pool, of [n] threads ([install], or a
+                                task of that pool) *)
+
 Record ocfg := mkOCfg {
   o_gworkers : nat;        (* threads of the global pool *)
   o_tasks : nat;           (* num_scoped_threads, computed from the CALLER's pool *)
-  o_caller_in_g : bool }.  (* the caller is worker 0 of the global pool *)
+  o_caller : ocaller;
+  o_fixed : bool }.        (* the code as it is now / [false]: before the repair of 7b *)
+
+(** the caller is worker 0 of the global pool *)
+Definition o_caller_in_g (k : ocfg) : bool :=
+  match o_caller k with OGlobalWorker => true | _ => false end.
+
+(** size of the caller's own pool when the caller is a pool worker
+    ([current_thread_index().map(|_| current_num_threads())]) *)
+Definition caller_pool (gworkers : nat) (c : ocaller) : option nat :=
+  match c with
+  | OExternal => None
+  | OGlobalWorker => Some gworkers
+  | OCustomWorker n => Some n
+  end.
+
+(** [rayon::current_num_threads()] at the call site *)
+Definition caller_threads (gworkers : nat) (c : ocaller) : nat :=
+  match c with OCustomWorker n => n | _ => gworkers end.
+
+(** [current_thread_index().is_some() && current_num_threads() == 1] *)
+Definition seq_branch (gworkers : nat) (c : ocaller) : bool :=
+  match caller_pool gworkers c with
+  | Some n => Nat.eqb n 1
+  | None => false
+  end.
+
+Definition o_takes_seq (k : ocfg) : bool :=
+  o_fixed k && seq_branch (o_gworkers k) (o_caller k).
 
 Record ost := mkOSt {
   o_closed : bool;              (* feeder has dropped in_tx *)
@@ -76,7 +127,9 @@ Inductive olabel :=
 | OSendOut (c : nat)        (* blocking send of the result succeeds (channel not full) *)
 | OFinish (c : nat)         (* input closed and empty: the consumer ends *)
 | ODrainRecv
-| ODrainEnd.
+| ODrainEnd
+| OSeqFold                  (* sequential branch: [acc = fold(acc, map(&mut init, val))] *)
+| OSeqReturn.               (* sequential branch: the iterator is exhausted, [return acc] *)
 
 Definition oruns_on (w : nat) (c : ocstate) : bool :=
   match c with OIdle w' | OHolding w' _ => Nat.eqb w w' | _ => false end.
@@ -84,7 +137,8 @@ Definition obusy (cs : list ocstate) (w : nat) : bool := existsb (oruns_on w) cs
 Definition o_is_done (c : ocstate) : bool := match c with ODone => true | _ => false end.
 Definition o_all_done (cs : list ocstate) : bool := forallb o_is_done cs.
 
-Definition ostep (k : ocfg) (s : ost) (l : olabel) : option ost :=
+(** the concurrent part: feeder, consumers in the global pool, draining caller *)
+Definition opar_step (k : ocfg) (s : ost) (l : olabel) : option ost :=
   match l with
   | OFeedSend =>
       match o_closed s, o_rest s with
@@ -146,10 +200,34 @@ Definition ostep (k : ocfg) (s : ost) (l : olabel) : option ost :=
           else None
       | _, _ => None
       end
+  | OSeqFold | OSeqReturn => None
   end.
 
+(** the sequential branch: the caller alone; [o_arr] records the items in the order in
+    which [fold] is applied to their images.  There is no channel: [OSeqReturn] sets
+    [o_closed] only so that [ofinal] has one definition for both branches *)
+Definition oseq_step (s : ost) (l : olabel) : option ost :=
+  match l with
+  | OSeqFold =>
+      match o_returned s, o_rest s with
+      | false, x :: r =>
+          Some (mkOSt (o_closed s) r (o_inq s) (o_cons s) (o_outq s) (x :: o_arr s) false)
+      | _, _ => None
+      end
+  | OSeqReturn =>
+      match o_returned s, o_rest s with
+      | false, [] => Some (mkOSt true [] (o_inq s) (o_cons s) (o_outq s) (o_arr s) true)
+      | _, _ => None
+      end
+  | _ => None
+  end.
+
+Definition ostep (k : ocfg) (s : ost) (l : olabel) : option ost :=
+  if o_takes_seq k then oseq_step s l else opar_step k s l.
+
+(** no consumer task is created in the sequential branch *)
 Definition oinit (k : ocfg) (items : list N) : ost :=
-  mkOSt false items [] (repeat OQueued (o_tasks k)) [] [] false.
+  mkOSt false items [] (repeat OQueued (if o_takes_seq k then 0 else o_tasks k)) [] [] false.
 
 (** the drain loop has ended, the feeder has closed the channel and its scope is complete *)
 Definition ofinal (s : ost) : bool :=
@@ -161,7 +239,7 @@ Inductive oreachable (k : ocfg) (items : list N) : ost -> Prop :=
     oreachable k items s'.
 
 Definition o_all_labels (k : ocfg) : list olabel :=
-  [OFeedSend; OClose; ODrainRecv; ODrainEnd]
+  [OFeedSend; OClose; ODrainRecv; ODrainEnd; OSeqFold; OSeqReturn]
   ++ flat_map (fun c => [ORecv c; OSendOut c; OFinish c]
                         ++ map (fun w => OStart w c) (seq 0 (o_gworkers k)))
        (seq 0 (o_tasks k)).
@@ -179,7 +257,7 @@ Definition omeasure (s : ost) : nat :=
   + 4 * length (o_rest s) + 3 * length (o_inq s)
   + list_sum (map ocweight (o_cons s)) + length (o_outq s).
 
-(** the pool has a thread that can execute the consumers *)
+(** the global pool has a thread that can execute the consumers *)
 Definition o_has_free_worker (k : ocfg) : bool :=
   if o_caller_in_g k then (2 <=? o_gworkers k)%nat else (1 <=? o_gworkers k)%nat.
 
@@ -194,7 +272,7 @@ Fixpoint o_first_free (cs : list ocstate) (from : bool) (w n : nat) : option nat
 
 Definition ocandidates (k : ocfg) (s : ost) : list olabel :=
   let free := o_first_free (o_cons s) (negb (o_caller_in_g k)) 0 (o_gworkers k) in
-  [OFeedSend; OClose; ODrainRecv; ODrainEnd]
+  [OFeedSend; OClose; ODrainRecv; ODrainEnd; OSeqFold; OSeqReturn]
   ++ flat_map (fun c =>
        match nth_error (o_cons s) c with
        | Some OQueued => match free with Some w => [OStart w c] | None => [] end
@@ -226,14 +304,19 @@ Fixpoint orun (k : ocfg) (fuel : nat) (sched0 sched : list nat) (s : ost) : oout
       end
   end.
 
-(** [caller_workers]: size of the pool the caller runs in ([current_num_threads()]), which
-    determines the number of consumers; [gworkers]: size of the global pool, which runs
-    them *)
-Definition pmf_ord_run (caller_workers gworkers : nat) (hint : option nat) (caller_in_g : bool)
+(** [gworkers]: size of the global pool, which runs the consumers; [caller]: what the
+    calling thread is, which determines [current_num_threads()] and hence the number of
+    consumers, and whether the sequential branch is taken *)
+Definition pmf_ord_run_gen (fixed : bool) (gworkers : nat) (caller : ocaller) (hint : option nat)
   (len : nat) (sched : list nat) : ooutcome :=
-  let k := mkOCfg gworkers (pmf_tasks caller_workers hint) caller_in_g in
+  let k := mkOCfg gworkers (pmf_tasks (caller_threads gworkers caller) hint) caller fixed in
   let s := oinit k (nseq 0 len) in
   orun k (omeasure s) sched sched s.
+
+(** the code as it is now *)
+Definition pmf_ord_run := pmf_ord_run_gen true.
+(** the code before the repair of defect 7b (no sequential branch) *)
+Definition pmf_ord_run_prefix := pmf_ord_run_gen false.
 
 (** the value computed from an arrival order *)
 Definition ord_value {R A} (f : N -> R) (fold : A -> R -> A) (init : A) (arrivals : list N) : A :=
